@@ -3,6 +3,7 @@ import ActixNet.Lemmas.SrvFuel
 import ActixNet.Lemmas.SrvProgress
 import ActixNet.Lemmas.SrvLive
 import ActixNet.Lemmas.SrvProgressF
+import ActixNet.Lemmas.CounterRace
 /-!
 # C03 — back-pressure releases: spare worker capacity is always used (no lost wake-up)
 
@@ -318,5 +319,16 @@ example : let S := run faultCfg (init faultCfg [.tcp]) (faultOps ++ [.env (.conn
 example : OpsOk faultCfg (init faultCfg [.tcp]) faultOps := by
   simp only [OpsOk, faultOps, and_true, true_and]
   refine ⟨?_, ?_, ?_, ?_⟩ <;> (unfold OrderOk; decide)
+
+
+/-- The accept thread's increments and the worker threads' decrements of one worker's counter are concurrent in the
+    real server.  Each is one atomic read-modify-write (T1), so an execution is an interleaving of whole steps; for
+    EVERY interleaving with as many decrements as increments the counter returns to its value: no update is lost,
+    which is what lets the sequential model of this file stand for the threaded code.  The engine's `k-race` op runs
+    the two real threads against each other (seed11 C03-22 made `inc` a load / store pair). -/
+theorem concurrent_counter_updates_not_lost (ops : List Bool) (v : Nat)
+    (hb : ops.count true = ops.count false) (hv : ops.count false ≤ v) :
+    Counter.applyOps v ops = v := Counter.interleaving_irrelevant ops v hb hv
+example : Counter.applyOps 3 [true, false, false, true, true, false] = 3 := by decide
 
 end ActixNet.C03
